@@ -976,6 +976,14 @@ func (rd *reachDefs) escapeExprAt(d rdDef, blk *ssa.BasicBlock, idx int, a ssa.V
 	}
 	out, ok := w.outFields(sc, d.ai)
 	if !ok {
+		// the helper assigns the record as a whole (`*held = held.Add(amount)`) or hands parts of it on: what the record
+		// holds when the helper returns, by reaching definitions inside the helper
+		if whole, ok2 := w.outWhole(sc, d.ai, 0); ok2 {
+			before := rd.scan(blk, idx, a, d.path)
+			en := w.callEnv(sc, d.esc, nil)
+			en.params[sc.Params[d.ai].Name()] = before
+			return Subst(whole, en.params)
+		}
 		return rd.escapeExpr(d)
 	}
 	before := rd.scan(blk, idx, a, d.path)
@@ -2630,4 +2638,92 @@ func elementsAssigned(call ssa.CallInstruction) bool {
 		}
 	}
 	return false
+}
+
+// outWhole summarises what the record behind the ai-th parameter of fn (a pointer to a struct) holds when fn returns
+// successfully, in fn's own terms (`param:<p>` standing for what the caller handed in): the reaching definitions of
+// the whole cell at the success returns. ok=false when the pointer is used in a way the reaching definitions do not
+// model (stored somewhere, captured, returned, handed to code outside the analysed set).
+func (w *World) outWhole(fn *ssa.Function, ai int, depth int) (*Expr, bool) {
+	if depth > 4 || ai >= len(fn.Params) || len(fn.Blocks) == 0 {
+		return nil, false
+	}
+	p := fn.Params[ai]
+	if _, isPtr := p.Type().Underlying().(*types.Pointer); !isPtr {
+		return nil, false
+	}
+	if _, isStruct := deref(p.Type()).Underlying().(*types.Struct); !isStruct {
+		return nil, false
+	}
+	var okUse func(v ssa.Value) bool
+	okUse = func(v ssa.Value) bool {
+		refs := v.Referrers()
+		if refs == nil {
+			return true
+		}
+		for _, r := range *refs {
+			switch x := r.(type) {
+			case *ssa.DebugRef, *ssa.UnOp, *ssa.BinOp:
+			case *ssa.Store:
+				if x.Addr != v {
+					return false // the pointer itself is stored somewhere
+				}
+			case *ssa.FieldAddr:
+				if !okUse(x) {
+					return false
+				}
+			case *ssa.Call:
+				h := x.Call.StaticCallee()
+				if h == nil {
+					return false
+				}
+				h = w.unwrap(h)
+				if h == nil || !w.inSet[h] || len(h.Blocks) == 0 {
+					return false
+				}
+				for aj, a := range x.Call.Args {
+					if a != v {
+						continue
+					}
+					if w.argReadOnly(x, aj, 0) {
+						continue
+					}
+					if _, ok := w.outFields(h, aj); ok {
+						continue
+					}
+					if _, ok := w.outWhole(h, aj, depth+1); !ok {
+						return false
+					}
+				}
+			default:
+				return false
+			}
+		}
+		return true
+	}
+	if !okUse(p) {
+		return nil, false
+	}
+	b := w.builderFor(fn)
+	if b.rd == nil {
+		return nil, false
+	}
+	rets := Returns(fn)
+	if ErrIndex(fn) >= 0 {
+		if sr := w.SuccessReturns(fn); len(sr) > 0 {
+			rets = sr
+		}
+	}
+	var alts []*Expr
+	for _, ret := range rets {
+		alts = append(alts, b.rd.at(ret, p, nil))
+	}
+	if len(alts) == 0 {
+		return nil, false
+	}
+	e := mkPhi(alts)
+	if opaque(e) {
+		return nil, false
+	}
+	return e, true
 }
